@@ -50,7 +50,10 @@ THEOREMS = {
     "C15": (["BS.Props.C15"], [("BS.Props.C15", "BS.Props.C15.push_keeps_canonical"),
                                 ("BS.Props.C15", "BS.Props.C15.size_formula"),
                                 ("BS.Props.C15", "BS.Props.C15.section_rule")]),
-    "C07": (["BS.Props.C07"], [("BS.Props.C07", "BS.Props.C07.whole_file_decodes"),
+    "C07": (["BS.Props.C07", "BS.Props.C07Lead"], [("BS.Props.C07Lead", "BS.Props.C07.reader_reads_any_layout_with_leads"),
+                                ("BS.Props.C07Lead", "BS.Props.C07.reference_decoder_reads_any_layout_with_leads"),
+                                ("BS.Props.C07Lead", "BS.Props.C07.leads_generalise_any_layout"),
+                                ("BS.Props.C07", "BS.Props.C07.whole_file_decodes"),
                                 ("BS.Props.C07", "BS.Props.C07.reference_decoder_reads_canonical"),
                                 ("BS.Props.C07", "BS.Props.C07.section_layout_is_documented"),
                                 ("BS.Props.C07", "BS.Props.C07.section_roundtrip"),
@@ -251,7 +254,7 @@ LEVEL_TEXT = {
  "C04": "Kernel-checked on the model, end to end through the API: create (any payload size, header) -> ANY sequence of append attempts -> close -> builder.open with the index file in any legitimate prior state: succeeds, data file byte-identical, session invariant re-established for exactly the accepted history, so read_all/len/range/last_line and the append rule are those of one uninterrupted session, any number of times (api_reopen_preserves, read_after_reopen, reopen_preserves); last_meta_timestamp terminates, never panics and is exact for every line size (last_meta_timestamp_exact, window_larger_than_overlap). Hypothesis TailClean (no marker-like raw timestamp line; empty for payload >= 4) is the recorded known finding marker-tail. Reopen with caches configured is C09's ground (differential).",
  "C05": "Kernel-checked on the model, end to end through the API: create -> ANY append attempts -> data file cut at ANY byte x index file in ANY legitimate prior state (absent, cut at any byte, lagging, shorter than its header) -> builder.open succeeds and yields the canonical files and a session whose history is exactly the completely written prefix (api_open_recovers_prefix, open_recovers_written_prefix, repair_yields_written_prefix; unconditional for payload >= 4). For payload < 4 the hypothesis TailClean is needed - proved necessary by tailClean_needed_counterexample and recorded as known finding marker-tail. Differential: cut-point enumeration incl. every header line boundary x index states incl. stale .part, large files, crash-repair-append chains.",
  "C06": "Kernel-checked on the model: the incrementally maintained index (file bytes and entries) is exactly the section list of the data after every accepted append; an index rebuilt from the data is identical to it for every file length and chunk size; no legitimate prior state of the index file influences the result of an open (incremental_index_exact, rebuild_equals_incremental, rebuilt_file_bytes, prior_index_state_irrelevant, chunk_size_irrelevant). Differential incl. the window-sweep battery for the backwards last-timestamp search.",
- "C07": "Kernel-checked: the independent reference decoder of Spec.lean (knows only the documented layout, shares no definition with the model) decodes the WHOLE canonical file of any valid history - header lengths, preamble text, payload size, user header of any bytes, data region - to exactly (user header, payload size, history) (whole_file_decodes), and every canonical data region to exactly what was appended; meta::write is byte-for-byte the documented section layout and meta::read inverts it for all five layouts; the library's reader reads every canonical region (reference_decoder_reads_canonical, section_layout_is_documented, section_roundtrip, reader_reads_canonical). The header text round trip is T10 (C17). Differential, forward direction: every file the library writes is compared byte-for-byte with the Lean spec encoder's file (all-bytes-distinct timestamps for every section layout); reverse direction: files written by earlier releases (the repository's assets, up to 500 KB) are planted byte for byte, decoded by the specification's independent reference decoder, and the library has to read back exactly that - with the shipped index and with the index rebuilt; the same for files built by a third, independent encoder (Python, in the generator) that are laid out as documented but NOT canonical (sections where none is needed, every line in its own section), which are also continued by appends. Reverse direction as theorems, at the level of the reader: for ANY layout the documentation allows (Spec.encodeW: a section in front of the first line and wherever the delta does not fit, and in front of any other line the writer liked - older releases, other writers; the canonical file is the special case) the model of read_with_processor over the whole region feeds the processor exactly the history (reader_reads_any_layout), the index rebuilt from such a file lists exactly its sections (index_rebuilt_for_any_layout), and the independent reference decoder decodes it to the same history (reference_decoder_reads_any_layout). Bounded reads / seeks over non-canonical files through the whole API (builder.open of a foreign file, then range reads) remain differential.",
+ "C07": "Kernel-checked: the independent reference decoder of Spec.lean (knows only the documented layout, shares no definition with the model) decodes the WHOLE canonical file of any valid history - header lengths, preamble text, payload size, user header of any bytes, data region - to exactly (user header, payload size, history) (whole_file_decodes), and every canonical data region to exactly what was appended; meta::write is byte-for-byte the documented section layout and meta::read inverts it for all five layouts; the library's reader reads every canonical region (reference_decoder_reads_canonical, section_layout_is_documented, section_roundtrip, reader_reads_canonical). The header text round trip is T10 (C17). Differential, forward direction: every file the library writes is compared byte-for-byte with the Lean spec encoder's file (all-bytes-distinct timestamps for every section layout); reverse direction: files written by earlier releases (the repository's assets, up to 500 KB) are planted byte for byte, decoded by the specification's independent reference decoder, and the library has to read back exactly that - with the shipped index and with the index rebuilt; the same for files built by a third, independent encoder (Python, in the generator) that are laid out as documented but NOT canonical (sections where none is needed, every line in its own section), which are also continued by appends. Reverse direction as theorems, at the level of the reader: for ANY layout the documentation allows (Spec.encodeW: a section in front of the first line and wherever the delta does not fit, and in front of any other line the writer liked - older releases, other writers; the canonical file is the special case) the model of read_with_processor over the whole region feeds the processor exactly the history (reader_reads_any_layout), the index rebuilt from such a file lists exactly its sections (index_rebuilt_for_any_layout), and the independent reference decoder decodes it to the same history (reference_decoder_reads_any_layout). The widest reading - a section may carry a full time that lies BEFORE the entry it precedes (non-zero first 16-bit time; a writer that stores the full time on its own schedule; Spec.encodeL, of which encodeW is the case lead = 0) - is covered as well: reader_reads_any_layout_with_leads, reference_decoder_reads_any_layout_with_leads. Bounded reads / seeks over non-canonical files through the whole API (builder.open of a foreign file, then range reads) remain differential, and for files with leads they are not demanded (DESIGN.md 15.4).",
  "C08": "Kernel-checked at full strength on the model, for the harness's integer resampler: create a series with any payload size, header and any cache configuration (distinct bucket sizes 1 <= B <= 2^32), make ANY sequence of append attempts with timestamps < 2^64: no panic, and for EVERY level the cache data file is byte for byte header ++ encode(bucketMeans B history) and its index canonical (caches_exact_in_one_session, via the invariant cacheProcess_inv lifted to all reachable states by pushAll_inv); a cache created over pre-existing data of any length holds exactly the bucket means with the trailing bucket only in the accumulator (cache_created_over_existing_data), and further appends keep it exact (appending_keeps_caches_exact); bucketMeans is characterised entry by entry (bucketMeans_get/_length). Sums are u128/u64 as in the code: no overflow is part of the theorem. The generic ResampleState contract of other resamplers is an assumption.",
  "C09": "Kernel-checked on the model (integer resampler): a cache that is missing, intact or torn at ANY byte, with its index in any legitimate prior state, is brought back on open to exactly header ++ encode(bucketMeans B history) with the open bucket in the accumulator - for every line count of the source, every 1 <= B <= 2^32, every payload size and timestamp magnitude (cache_restored_on_open; the resume point line_pos is exact for every line number: resume_point_exact); one round of 'any append attempts, close, builder.open with the same configuration' re-establishes the invariant for the source and EVERY cache level and leaves source and intact cache files byte-identical, so any mix of appends and reopens equals one uninterrupted session (append_close_reopen_keeps_caches; as ONE theorem over all sequences of append attempts and close/reopen steps from creation on, for payload >= 4: any_mix_of_appends_and_reopens); a cache file cut off inside its own file header is removed and recreated (after fix 5a923cc); after a crash (source cut at any byte, caches absent/torn relative to the surviving lines) the open repairs source and caches (reopen_repairs_source_and_caches). A cache that ran AHEAD of a torn source (written by a session that saw xs ++ lost for ANY lost lines, itself cut at any byte, holding more buckets than the surviving lines fill): the open succeeds and either empties and rebuilds the cache to exactly the uninterrupted-session state (only the in-memory last_time of a rebuilt cache that is still empty may be stale) or keeps exactly the one bucket straddling the end of the surviving lines, not newer than the last surviving line, and skips the lines it accounts for (cache_ahead_of_torn_source); from that state ANY further appends never fail or panic and the cache file stays a valid history that equals the uninterrupted-session cache in every position but that one (kept_bucket_is_the_only_deviation, by the two-phase invariant CacheSkipping / CacheDev). In repeated form (general invariant CacheInvD: the cache file is header ++ encode L for a valid L that agrees with bucketMeans B history outside a set D of deviating buckets; D empty = the uninterrupted-session file, which is what C08 proves from creation on): appends keep it with the same D (appends_keep_general_invariant), and after a crash that loses ANY tail of the source and cuts the cache file at ANY byte, with its index in any legitimate prior state (deleted included), open_or_create succeeds and re-establishes it with D grown by at most the bucket straddling the end of the surviving lines (cache_reopened_after_any_crash) - so after any mix of appends, reopens and crashes at most one bucket per crash deviates. For ALL levels of a configuration at once and through builder.open: apiOpen_after_any_crash (source torn at any byte, EVERY cache file cut at its own byte, every index in any legitimate state: the open succeeds, the source is the canonical file of the surviving prefix, every level satisfies the general invariant with at most the straddling bucket added; openCaches_after_any_crash; the hypotheses are met by whatever an uninterrupted session leaves: crashedCache_of_session). Source torn with the cache ahead is also run differentially (B in {1,2,3,4,10}, far-newer lost lines). Hypothesis TailClean for payload < 4 (known finding marker-tail).",
  "C10": "Kernel-checked on the model: read_n without caches, for EVERY pair of bounds and n >= 1 (files up to 2^32 lines): uniform bucket means with one bucket size b >= 1 of exactly the lines a full read of the range returns, at most 2n of them, no overflow (read_n_of_any_range, sampler_is_bucket_means, at_most_2n). The resampler is the harness's integer resampler over the library's own u64 ResampleState; the generic resampler contract is an assumption.",
